@@ -75,6 +75,7 @@ def run(tier):
         names = [n for n, _ in gen_const.reaches(r["cat"], r["dim"], "")]
         vals = o[1:1 + len(names)]
         accepts_assign = o[1 + len(names)] if len(o) > 1 + len(names) else None
+        swap_obs = o[2 + len(names)] if len(o) > 2 + len(names) else None
         key = (r["start"], r["D"], tuple(r["steps"]))
         if any((r["start"], r["D"], tuple(r["steps"][:k])) in failed for k in range(1, len(r["steps"]))):
             failed.add(key)
@@ -86,6 +87,11 @@ def run(tier):
             if hole:
                 failed.add(key)
                 rep.violation(dict(sig0, kind="writable_from_const", reach=hole[0]), {"path": r, "expr": gen_const.expr_of(r["steps"], "<start>"), "reaches": dict(zip(names, vals))})
+                continue
+            if swap_obs is not None and swap_obs != -1:
+                # swap(mutable view, x) writes into x: it must be rejected for a read-only x
+                failed.add(key)
+                rep.violation(dict(sig0, kind="swap_accepted_with_read_only_view"), {"path": r, "expr": gen_const.expr_of(r["steps"], "<start>")})
                 continue
         else:
             if vals and vals[0] != 1:
